@@ -385,3 +385,13 @@ Example C02_example_rejects_ok_after_cancel :
   (exists fs, faccepts g_sh c_sh false [] [Cancel; Ev (Ret false)] = Some fs) /\
   faccepts g_x c_x true [0; 1; 2] [ProOk; Cancel; ProOk; ProOk; Ev (Ret true)] = None.
 Proof. exact example_rejects_ok_after_cancel. Qed.
+
+(* the extra hypothesis of C02_no_stuck_state_mounter is satisfiable: a Mounter destination (c_mount = true) on
+   the shared-successor DAG, whose content keys are the node ids *)
+Example C02_example_mounter_hypotheses :
+  (forall a b, g_dkey g_sh a = g_dkey g_sh b -> a = b) /\
+  exists fs, faccepts g_sh (mkCfg 3 MGraph 4 true true [] []) false []
+               [Ev (ExB 4); Ev (ExE 4 false); Ev (SFB 4); Ev (SFE 4); Ev (SFC 4); Ev (ExB 2); Ev (ExE 2 false);
+                Ev (SFB 2); Ev (SFE 2); Ev (SFC 2); Ev (ExB 0); Ev (ExE 0 false); Ev (Cb CMountFrom 0); Ev (MtB 0);
+                MtX 0 true] = Some fs /\ ph (fb fs) 0 = Dead /\ present_nodes g_sh (dst (fb fs)) = [0].
+Proof. split; [intros a b H; exact H|]. eexists. split; [vm_compute; reflexivity|]. split; reflexivity. Qed.
